@@ -226,6 +226,7 @@ def generate(seed, run, tier="quick", overrides=None):
     weights = {
         "reg.get": prng.choice([1, 3, 6]), "reg.generic": prng.choice([1, 3, 6]),
         "reg.bad": 0 if faultfree else prng.choice([0, 1, 2]),
+        "reg.space": prng.choice([0, 1, 1]),
         "lib": prng.choice([0, 1, 3]), "build": prng.choice([3, 5]),
         "rename.sc": prng.choice([1, 3]), "rename.gen": prng.choice([1, 3]),
         "rename.permute": prng.choice([1, 3]), "rename.subs": prng.choice([1, 3, 5]),
@@ -271,6 +272,9 @@ def generate(seed, run, tier="quick", overrides=None):
                 key = f"{sp}_{spin}" if spin else sp
                 kw[key] = rng.choice([0, 1, 2, 2, 3, 4, 5, 7, 9, 15, 15, 31, 52, 75])
             st = {"op": "reg.generic", "kw": kw}
+        elif k == "reg.space":
+            st = {"op": "reg.space", "space": rng.choice(
+                ["ph", "pphh", "h", "p", "hh", "pph", "phh", "ppphhh", "hp", "hhpp", "pp", ""])}
         elif k == "reg.bad":
             st = {"op": "reg.bad", "variant": rng.choice(
                 ["len_mismatch", "bad_letter", "bad_letter_late", "bad_letter_late_plain",
@@ -1085,6 +1089,40 @@ class C08Session:
         else:
             ret = self.ind.get_indices(list(names), list(spins))
         return {"n": sum(len(v) for v in ret.values())}
+
+    def op_reg_space(self, st):
+        """helpers that translate excitation-space strings into generic indices, and
+        get_symbols called with Index objects"""
+        from adcgen.indices import (generic_indices_from_space, n_ov_from_space, get_symbols,
+                                    repeated_indices)
+        space = st["space"]
+        want = {"occ": space.count("h"), "virt": space.count("p")}
+        if n_ov_from_space(space) != want:
+            self.viol("registry", "R3", f"n_ov_from_space({space!r}) = "
+                      f"{n_ov_from_space(space)}")
+        idx = generic_indices_from_space(space) if space else []
+        keys = [self.key_of(s_)[0] for s_ in idx]
+        if keys != ["occ"] * want["occ"] + ["virt"] * want["virt"] or \
+                len(set(idx)) != len(idx):
+            self.viol("registry", "R3", f"generic_indices_from_space({space!r}) returned "
+                      f"{idx} (documented: occupied before virtual, one index per letter)")
+        # Index objects go through get_symbols untouched
+        if idx:
+            back = get_symbols(list(idx))
+            if len(back) != len(idx) or any(a is not b for a, b in zip(back, idx)):
+                self.viol("registry", "R2", f"get_symbols({idx}) returned {back}")
+            one = get_symbols(idx[0])
+            if len(one) != 1 or one[0] is not idx[0]:
+                self.viol("registry", "R2", f"get_symbols({idx[0]}) returned {one}")
+            names = "".join(s_.name for s_ in idx)
+            again = get_symbols(names)
+            if any(a is not b for a, b in zip(again, idx)):
+                self.viol("registry", "R2", f"get_symbols({names!r}) did not return the "
+                          f"generic objects just handed out: {again} vs {idx}")
+            if not repeated_indices(names, idx[-1].name) or \
+                    repeated_indices(names, "x" + idx[-1].name[1:] + "9"):
+                pass  # repeated_indices is a pure string helper; exercised for exceptions only
+        return {"n": len(idx)}
 
     def op_reg_generic(self, st):
         ret = self.ind.get_generic_indices(**st["kw"])
